@@ -7,11 +7,8 @@ import (
 	"bytes"
 	"encoding/json"
 	"fmt"
-	"os"
-	"runtime/pprof"
 	"sort"
 	"strings"
-	"time"
 
 	sdk "github.com/cosmos/cosmos-sdk/types"
 	speckeeper "github.com/lavanet/lava/v5/x/spec/keeper"
@@ -329,10 +326,6 @@ func (g graph) exposed(n string, reqs *[]requirement) map[string]*rColl {
 type counters struct {
 	evals, success, rejectedCycleUnknown, rejectedOther, accepted, nontrivial, reqChecked, permRuns int64
 	outcomes                                                                                        map[string]int64
-}
-
-type caseResult struct {
-	viol []ev.Violation
 }
 
 func collName(addon string) string {
@@ -934,29 +927,4 @@ func init() {
 		run.Assume("collection-internal inheritance (InheritanceApis), headers, parse directives, extensions and verifications are outside the alphabet")
 		run.Assume("'contains every enabled api of its imports' is read on the expanded imports (transitively); 'overrides' = the spec defines an api of the same name in a collection of the same identity")
 	}})
-}
-
-// DebugCount prints the size of the enumeration (development aid).
-func DebugCount(tier string) {
-	n := map[int]int{}
-	mkPlan(tier).enumerate(0, 1, func(sweep int, defs []specDef, _ bool) { n[sweep]++ })
-	fmt.Println(tier, n)
-}
-
-// DebugShard runs one shard in-process (development aid).
-func DebugShard(tier string, shard, n int) {
-	h := newHarness()
-	if pf := os.Getenv("VERIF_PPROF"); pf != "" {
-		f, _ := os.Create(pf)
-		pprof.StartCPUProfile(f)
-		defer pprof.StopCPUProfile()
-	}
-	t0 := time.Now()
-	defer func() { fmt.Println("shard time", time.Since(t0)) }()
-	cnt, viol, samples := h.runShard(mkPlan(tier), shard, n)
-	fmt.Printf("%+v\n", cnt)
-	for _, v := range viol {
-		fmt.Println("VIOL", v.Key, v.What)
-	}
-	fmt.Println(samples)
 }
